@@ -87,8 +87,11 @@ def cases(draw):
     pts = []
     for _ in range(draw(st.integers(1, 10))):
       pts.append([draw(names), draw(ts_strategy()), draw(value_strategy())])
+    if gens and draw(st.booleans()):
+      # the same series keep arriving after the lists changed
+      pts = pts + [[p[0], draw(ts_strategy()), draw(value_strategy())] for p in gens[-1]['points'][:6]]
     gens.append({'whitelist': wl_text, 'blacklist': bl_text, 'wl': wl, 'bl': bl, 'points': pts,
-                 'wl_missing': draw(st.integers(0, 9)) == 0})
+                 'wl_missing': draw(st.integers(0, 7)) == 0, 'bl_missing': draw(st.integers(0, 7)) == 0})
   return {'generations': gens, 'resolution': draw(st.sampled_from([0, 0, 1, 10, 60]))}
 
 
@@ -106,6 +109,8 @@ def model(gen_, res):
   wl, bl = gen_['wl'], gen_['bl']
   if gen_.get('wl_missing'):
     wl = []
+  if gen_.get('bl_missing'):
+    bl = []
   for name, ts, val in gen_['points']:
     if bl and any(entry_matches(e, name) for e in bl):
       rejected[1] += 1
@@ -171,7 +176,7 @@ def execute(ctx, case):
       mtime = 1000000000
       for gi, g in enumerate(case['generations']):
         mtime += 100
-        for pth, text, missing in ((wl_path, g['whitelist'], g.get('wl_missing')), (bl_path, g['blacklist'], False)):
+        for pth, text, missing in ((wl_path, g['whitelist'], g.get('wl_missing')), (bl_path, g['blacklist'], g.get('bl_missing'))):
           if missing:
             if os.path.exists(pth):
               os.unlink(pth)
